@@ -11,9 +11,13 @@ get_dwarf_link, the exception class on rejected states, and a FULL dump of the D
 every DIE with attributes and resolved strings, line programs, .debug_frame / .eh_frame entries with
 decoded tables) against the dump of the plain encoding of the same payload and against the
 specification's view of the payload's units (C04's view).
+Repeated questions: for every maximal sequence of questions the specification's client asks the loaded object
+(Container!Ask: "name" = DWARFInfo.parse_debugsupinfo(), "sup" = ELFFile.get_supplementary_dwarfinfo(dwarfinfo), "view" =
+the full dump of the object again) the driver opens the image afresh, loads once and asks in that order; every answer must
+be the one TLC wrote next to the question (a function of the configuration, whatever was asked before).
 Metamorphic part: the same container transforms are applied harness-side to corpus files (section
 contents rewritten generically through the record layouts the specification exports; zlib levels
-0/1/6/9; SHF_COMPRESSED, .zdebug renaming, stripping + .gnu_debuglink with right/wrong CRC,
+0/1/6/9; SHF_COMPRESSED, .zdebug renaming, per-section mixtures of plain / SHF_COMPRESSED / .zdebug, stripping + .gnu_debuglink with right/wrong CRC,
 decompression of already compressed files, supplementary pairs through a loader); thorough adds
 objcopy 2.40 as an independent transformer.  Dumps must equal the dump of the untouched file.
 
@@ -345,7 +349,7 @@ def _key(x):
 
 def run_spec_cases(run, res, only_tag=None):
     layout = None
-    imgs, cases, views = {}, {}, {}
+    imgs, cases, views, queries = {}, {}, {}, {}
     for ln in run.cases(res.out):
         k = ln['k']
         if k == 'layout':
@@ -356,6 +360,8 @@ def run_spec_cases(run, res, only_tag=None):
             views[_key(ln['refkey'])] = ln
         elif k == 'case':
             cases[(_key(ln['img']), ln['loader'], ln['follow'])] = ln
+        elif k == 'query':
+            queries[(_key(ln['img']), ln['loader'], ln['follow'], tuple(ln['qs']))] = ln
     if layout is None or not cases:
         raise core.MachineryError('Container: no layout / cases emitted')
 
@@ -383,10 +389,11 @@ def run_spec_cases(run, res, only_tag=None):
 
     # references first: the plain encoding of every payload
     refs = {}
+    built = {}
     order = sorted(cases.values(), key=lambda c: (not c['isref'], c['fam'], str(c['img']), c['loader'], c['follow']))
     for case in order:
         main, table, crc = build(case)
-        tag = '%s:%s/plan=%s' % (case['fam'], case['sup'] if case['sup'] != 'none' else case['dl'] if case['dl'] != 'none' else 'nolink', case['plan'])
+        tag = _tag(case)
         if only_tag is not None and tag != only_tag and not case['isref']:
             continue
         brief = {'cfg': {k: case[k] for k in ('fam', 'cls', 'le', 'ver', 'fmt', 'plan', 'dl', 'home', 'sup', 'supplan', 'loader', 'follow')},
@@ -471,7 +478,79 @@ def run_spec_cases(run, res, only_tag=None):
         df = first_diff(ref, d)
         if df:
             bad('dump', {'at': df[0], 'plain': _short(df[1])}, {'at': df[0], 'encoded': _short(df[2])})
+    # ---- repeated / reordered questions to the loaded object
+    for qk in sorted(queries, key=str):
+        q = queries[qk]
+        tag = _tag(q)
+        if only_tag is not None and tag != only_tag:
+            continue
+        ik = _key(q['img'])
+        if ik not in built:
+            built[ik] = build(q)
+        main, table, _crc = built[ik]
+        brief = {'cfg': {k: q[k] for k in ('fam', 'plantag', 'dl', 'sup', 'loader', 'follow')}, 'questions': q['qs'],
+                 'main_b64': core.b64(main), 'files_b64': {k.decode(): core.b64(v) for k, v in table.items()}}
+        run.count(_key([q['img'], q['loader'], q['follow'], q['qs']]), nontrivial=True,
+                  sample={'cfg': brief['cfg'], 'questions': q['qs'], 'answers': q['ans']} if run.evaluations % 499 == 7 else None)
+        ref = refs.get(_key(q['refkey']))
+        supref = refs.get(_key(q['suprefkey']))
+        try:
+            ask(run, tag, brief, main, table, q, ref, supref)
+        except core.CallTimeout as ex:
+            run.mismatch('requery.timeout', tag, brief, 'an answer', str(ex))
     return layout
+
+
+def _tag(case):
+    return '%s:%s/plan=%s' % (case['fam'], case['sup'] if case['sup'] != 'none' else case['dl'] if case['dl'] != 'none' else 'nolink',
+                              case['plantag'])
+
+
+def ask(run, tag, brief, main, table, q, ref, supref):
+    """One fresh object, loaded once, then asked q['qs'] in order; q['ans'] are the specification's answers."""
+    from elftools.elf.elffile import ELFFile
+    with core.guard(120):
+        try:
+            ef = ELFFile(io.BytesIO(main), stream_loader=Loader(table)) if q['loader'] else ELFFile(io.BytesIO(main))
+            di = ef.get_dwarf_info(follow_links=q['follow'])
+        except core.CallTimeout:
+            raise
+        except Exception as ex:
+            run.mismatch('requery.load', tag, brief, 'loads (the specification reached "loaded")', _exc(ex))
+            return
+        for i, (what, want) in enumerate(zip(q['qs'], q['ans'])):
+            where = dict(brief, at=i, asked_before=q['qs'][:i])
+            try:
+                if what == 'name':
+                    got = di.parse_debugsupinfo()
+                    exp = bytes(want['b']) if want['p'] else None
+                    if (None if got is None else bytes(got)) != exp:
+                        run.mismatch('requery.name', tag, where, _short(exp), _short(got))
+                elif what == 'sup':
+                    sdi = ef.get_supplementary_dwarfinfo(di)
+                    if (sdi is not None) != want['p']:
+                        run.mismatch('requery.sup', tag, where, 'loaded' if want['p'] else None, 'loaded' if sdi is not None else None)
+                    elif sdi is not None:
+                        if supref is None or 'supunits' not in supref:
+                            raise core.MachineryError('no reference with a loaded supplementary file for %r' % (q['suprefkey'],))
+                        df = first_diff(supref['supunits'], _part(lambda: _units(sdi)))
+                        if df:
+                            run.mismatch('requery.sup.units', tag, where, {'at': df[0], 'plain': _short(df[1])}, {'at': df[0], 'asked': _short(df[2])})
+                elif what == 'view':
+                    if not want['p']:
+                        raise core.MachineryError('the specification answered "view" with FALSE')
+                    if ref is None:
+                        raise core.MachineryError('no plain reference for %r' % (q['refkey'],))
+                    df = first_diff(ref, full_dump(di))
+                    if df:
+                        run.mismatch('requery.view', tag, where, {'at': df[0], 'plain': _short(df[1])}, {'at': df[0], 'asked': _short(df[2])})
+                else:
+                    raise core.MachineryError('unknown question %r' % what)
+            except (core.CallTimeout, core.MachineryError):
+                raise
+            except Exception as ex:
+                run.mismatch('requery.exception.' + what, tag, where, _short(want), _exc(ex))
+                return
 
 
 # ------------------------------------------------------------------ harness-side rewriter (layout tables from the spec)
@@ -611,6 +690,36 @@ def t_zdebug(data, layout, level, only_smaller=False):
     return rw.build()
 
 
+def t_mixed(data, layout, level, choose):
+    """An encoding per section: choose(k, name) in {'plain', 'gabi', 'z'} for the k-th debug section (file order).  The GNU
+    tools produce such files (a section is compressed / renamed only when that makes it smaller)."""
+    rw = ElfRw(data, layout)
+    dp, zp = bytes(layout['debug_prefix']), bytes(layout['zdebug_prefix'])
+    renamed = {}
+    k = 0
+    for i in range(len(rw.sh)):
+        if _is_debug(rw, i) and not rw.sh[i]['sh_flags'] & layout['shf_compressed']:
+            enc = choose(k, rw.names[i])
+            k += 1
+            d = rw.content(i)
+            if enc == 'gabi':
+                rw.new[i] = rw.chdr(layout['elfcompress_zlib'], len(d), rw.sh[i]['sh_addralign']) + zlib.compress(d, level)
+                rw.sh[i]['sh_flags'] |= layout['shf_compressed']
+            elif enc == 'z':
+                rw.new[i] = bytes(layout['zmagic']) + len(d).to_bytes(8, 'big') + zlib.compress(d, level)
+                renamed[rw.names[i]] = zp + rw.names[i][len(dp):]
+                rw.names[i] = renamed[rw.names[i]]
+    for i in range(len(rw.sh)):
+        for pre in (b'.rela', b'.rel'):
+            if rw.names[i].startswith(pre + dp) and rw.names[i][len(pre):] in renamed:
+                rw.names[i] = pre + renamed[rw.names[i][len(pre):]]
+                break
+    return rw.build()
+
+
+MIX3 = ('plain', 'gabi', 'z')
+
+
 def debuglink_record(name, crc, le):
     """File name, NUL, zero padding to a multiple of four, CRC-32 in the file's byte order (Container!DebugLinkRec)."""
     b = bytes(name) + b'\0'
@@ -672,6 +781,13 @@ def run_corpus(run, layout, files, levels, objcopy, only=None):
             variants.append(('gabi/level%d' % lv, t_gabi(data, layout, lv), table, bool(sup), True, ref, 'all'))
             variants.append(('zdebug/level%d' % lv, t_zdebug(data, layout, lv), table, bool(sup), True, ref, 'all'))
         variants.append(('zdebug-smaller/level6', t_zdebug(data, layout, 6, only_smaller=True), table, bool(sup), True, ref, 'all'))
+        # an encoding per section (Container's plan "mix" on compiler output): the three rotations of plain / SHF_COMPRESSED /
+        # .zdebug over the debug sections in file order, and .debug_info alone plain resp. alone renamed
+        info = bytes(layout['debug_prefix']) + b'info'
+        for r in range(3):
+            variants.append(('mixed.rot%d/level6' % r, t_mixed(data, layout, 6, lambda k, nm, r=r: MIX3[(k + r) % 3]), table, bool(sup), True, ref, 'all'))
+        variants.append(('mixed.info-plain/level6', t_mixed(data, layout, 6, lambda k, nm: 'plain' if nm == info else 'z'), table, bool(sup), True, ref, 'all'))
+        variants.append(('mixed.info-z/level6', t_mixed(data, layout, 6, lambda k, nm: 'z' if nm == info else 'plain'), table, bool(sup), True, ref, 'all'))
         p = t_plain(data, layout)
         if p is not None:
             variants.append(('plain', p, table, bool(sup), True, ref, 'all'))
@@ -792,10 +908,13 @@ def replay(run, path):
 
 def check(run):
     run.rule = ('cases = (a) final states of the Container loading-pipeline machine: encoding plan (15: plain, SHF_COMPRESSED whole/partial/'
-                'multi-block/declared size too big/too small/bad type, .zdebug whole/multi-block/mixed/bad magic/size too big/too small/truncated) x class/byte order x DWARF '
+                'multi-block/declared size too big/too small/bad type, .zdebug whole/multi-block/mixed/bad magic/size too big/too small/truncated; "mix": every '
+                'non-uniform assignment of plain/SHF_COMPRESSED/.zdebug to the four debug sections, .debug_sup against the rest) x class/byte order x DWARF '
                 'version/format x .eh_frame, link families (stripped+.gnu_debuglink right/wrong CRC, unstripped with link, .gnu_debugaltlink, '
                 '.debug_sup with is_supplementary 0/1, stripped->debug->supplementary chains) x encodings of every file x loader x follow_links; '
-                '(b) corpus file x harness-side transform (gABI / .zdebug at zlib levels, decompression, split + link, supplementary pairs'
+                '(a2) every maximal sequence of repeated questions (supplementary file name / load it / walk the view again) to the loaded object of the link '
+                'configurations, answers computed by the machine; '
+                '(b) corpus file x harness-side transform (gABI / .zdebug at zlib levels, per-section mixtures, decompression, split + link, supplementary pairs'
                 '; thorough: objcopy). Non-trivial = not the plain, link-free encoding. Distinct by configuration / (file, transform).')
     run.assumptions += ['Crc32 and deflate levels other than stored blocks are computed by Python binascii/zlib (trusted)',
                         'error classes: CRC, declared size, unknown compression type -> ELFError family; .zdebug framing -> AssertionError or ELFError',
